@@ -10,15 +10,41 @@ from gen import mutate
 
 LEVEL_NOTE = [
     "C02_full (every operator of the violation catalogue of DESIGN §4.2, at every applicable site of every conforming program, yields its code on the edited line) is NOT proved. Proved fragments (C02.v82_line_too_long, counters_fire, verdict_error and by import C13.reject_no_header, C14.*): the rule emits the code when the statement it is handed contains the pattern — for line length, header, include guard and the four counters; verdict and exit status follow from C04 once an Error-level diagnostic exists",
-    "decision per (program, operator, site): the catalogue oracle runs the real pipeline on the edited program and looks for the operator's code on the edited line (harness/gen/mutate.py: 90 operators, validated on the unchanged tool; site classes where the tool is silent are listed in mutate.INCONSISTENT)",
+    "end to end, for EVERY rule table (C02.ternary_e2e / ternary_sound, C03.long_line_reported): in every file that reaches a verdict each `?` token gets TERNARY_FBIDDEN at its position and each over-long line ending in a newline token gets LINE_TOO_LONG — CheckTernary and CheckLineLen run after every matched primary and the statements tile the token list (C07); tie: `always` stream (source -> model lexer -> engine replaying the observed decisions -> the two checks, compared with what the real rules emitted)",
+    "decision per (program, operator, site): the catalogue oracle runs the real pipeline on the edited program and looks for the operator's code on the edited line (harness/gen/mutate.py: 90 operators, validated on the unchanged tool; site classes where the tool is silent are listed in mutate.INCONSISTENT, recorded as known findings and replayed on every run)",
 ]
 PARTIAL = [
     "C02_partial: the segmentation hypothesis (the edited line reaches the rule as a statement of the right kind) and every rule other than the ones named above are not modelled; decided per case by the oracle (per-operator hit counts in the evidence)",
 ]
 
 
+def slug_of(opid, text, line):
+    """site class of a listed silent violation: operator id + the edited line without blanks"""
+    l = text.split("\n")[line - 1]
+    return opid + "@" + "".join(ch for ch in l if ch not in " \t")[:24]
+
+
+def known_silent(res):
+    """the site classes where the tool is silent (mutate.INCONSISTENT with nothing reported) are
+    replayed on the real code; each is reported under its own signature, which known_findings.json
+    lists, for as long as the code is still missing"""
+    from impl import pipeline
+    for opid, text, (codes, line), got in mutate.INCONSISTENT:
+        if got:
+            continue        # reported under another name: a refinement of the catalogue, not a finding
+        codes = codes if isinstance(codes, tuple) else (codes,)
+        name = "x.h" if "#ifndef X_H" in text else "x.c"
+        r = pipeline(name, text)
+        res.count("known-silent", 1)
+        found = r["outcome"] == "ok" and any(d[0] in codes and d[3] and d[3][0][0] == line for d in r["diags"])
+        if not found:
+            res.report("violation:missing:" + slug_of(opid, text, line), f"{opid}: {list(codes)} not reported on line {line}",
+                       {"kind": "violation", "name": name, "src": text, "operator": opid, "codes": list(codes), "line": line})
+
+
 def run(res, tier, br, model_ok=True, search=False):
     from impl import pipeline, run_cli
+    known_silent(res)
     rng = random.Random(res.seed + 139)
     big = tier == "thorough" or search
     progs = families.programs(rng, 120 if big else 24, kinds=("c", "c", "h"))
@@ -71,6 +97,22 @@ def run(res, tier, br, model_ok=True, search=False):
         rp = {"kind": "violation", "name": name, "src": text, "operator": "wrapped:" + code, "codes": [code], "line": line}
         if r["outcome"] != "ok" or not any(d[0] == code and d[3] and d[3][0][0] == line for d in r["diags"]):
             res.report(f"violation:wrapped-{code}:missing", f"{name}: {code} not reported on line {line} ({r['outcome']}); got {[(d[0], d[3][0][0]) for d in r['diags']][:6]}", rp)
+    if model_ok:
+        import alwayscorr
+        e2e = []
+        for op in mutate.OPERATORS:
+            codes = op.code if isinstance(op.code, (tuple, list, set)) else (op.code,)
+            if not ({"TERNARY_FBIDDEN", "LINE_TOO_LONG"} & set(codes)):
+                continue
+            for p in progs[: (12 if big else 4)]:
+                try:
+                    sites = op.sites(p)
+                    if sites:
+                        e2e.append((p.name, op.apply(p, rng.choice(sites))[0]))
+                except Exception:
+                    pass
+        e2e += [(name, text) for name, text, code, line in families.extra_violating() if code in ("TERNARY_FBIDDEN", "LINE_TOO_LONG")]
+        alwayscorr.check(res, e2e)
     res.streams["catalogue"]["operators"] = len(mutate.OPERATORS)
     res.streams["catalogue"]["operators_hit"] = len(hits)
     res.streams["catalogue"]["least_hit"] = sorted(hits.items(), key=lambda kv: kv[1])[:6]
